@@ -13,4 +13,6 @@ INVARIANT TransposeInvolution
 INVARIANT ClipWithinBounds
 INVARIANT RehierarchExact
 INVARIANT LevelAddDropRoundTrip
+INVARIANT SearchSortedBrackets
+INVARIANT SearchSortedPointwise
 CHECK_DEADLOCK FALSE
